@@ -41,8 +41,10 @@ def main():
                     k = (fn, ln["line_number"])
                     counts[k] = counts.get(k, 0) + ln["count"]
                 for fu in f.get("functions", []):
-                    k = (fn, fu.get("demangled_name", fu["name"]).split("(")[0][:120], fu["start_line"])
-                    funcs[k] = funcs.get(k, 0) + fu["execution_count"]
+                    # one source function = (file, first line), whatever the template arguments
+                    k = (fn, fu["start_line"])
+                    c, nm = funcs.get(k, (0, ""))
+                    funcs[k] = (c + fu["execution_count"], nm or fu.get("demangled_name", fu["name"]).split("(")[0][:120])
     per = {}
     for (fn, ln), c in counts.items():
         per.setdefault(fn, []).append((ln, c))
@@ -66,8 +68,8 @@ def main():
             out.append("   %d-%d: %s" % (g[0], g[-1], src[g[0] - 1].strip()[:110]))
     out.append("TOTAL %d instrumented lines, %d never executed (%.1f%%)" % (tot, zero, 100.0 * zero / max(1, tot)))
     # functions instantiated but never called
-    never = sorted({(os.path.relpath(k[0], REPO), k[2], k[1]) for k, c in funcs.items() if c == 0})
-    out.append("functions instantiated by some harness but never called: %d" % len(never))
+    never = sorted({(os.path.relpath(k[0], REPO), k[1], nm) for k, (c, nm) in funcs.items() if c == 0})
+    out.append("source functions instantiated by some harness but called in no instantiation: %d" % len(never))
     for f, ln, name in never:
         out.append("   %s:%d %s" % (f, ln, name))
     with open(os.path.join(COV, "gaps.txt"), "w") as f:
